@@ -52,6 +52,21 @@ CLAIMED.update({
     "C15": _ch("C15", "every primitive leaf as Union[None,bool,int,float,str]; container nestings depth<=2/3", "DESIGN.md 3/C15"),
 })
 
+def _ts(what, ref):
+    return {
+        "category": "model_checking",
+        "text": "Bounded model checking decided by z3 on a transition system compiled at every run from the current AST of jsonrpclib/threadpool.py (one step per traced source statement, calls inlined, threading/queue primitives modelled, thread-local steps fused by Lipton reduction): " + what + ". For every window z3 decides each clause for ALL interleavings up to the stated number of scheduling steps, and deeper for all interleavings with a bounded number of preemptions; completion twins guard against vacuity; every solver witness and counterexample is replayed statement by statement on the real classes with real threads under a settrace scheduler and compared event by event. Not a proof: threads, tasks, steps and preemptions are bounded as stated in the evidence.",
+        "design_ref": ref,
+        "note": "Trusted: z3; the py2ts translator and the primitive models of threading.Event/RLock/Thread and queue.Queue (validated on every run by replaying solver witnesses on the real code, fail-closed on unknown constructs); statement-level granularity (bytecode-level interleavings inside one statement are outside the claim); real OS scheduling is not sampled.",
+        "technique": TS,
+        "engine": "TS",
+    }
+
+
+CLAIMED.update({
+    "C16": _ts("executor || registrar || observer programs over one FutureResult, tasks that return or raise, callbacks that return, raise or have the wrong arity, one or two registrations", "DESIGN.md 3/C16"),
+})
+
 PENDING_REASON = "check not built yet in this session (planned, see DESIGN.md section 3); not claimed until its quick command passes on the unchanged tree"
 
 
